@@ -176,8 +176,18 @@ func exec(c proto.Case, o *proto.Out) []string {
 	outs := make([]string, len(c.Ops))
 	clk := detclock.NewManual(0)
 	rls := limit.NewRateLimitState(clk, logging.ContextLogger{})
+	// plugin wiring: the identity obfuscator as in services.go (production) unless the FIRST op of the
+	// case says `wiring hasher=md5` (the wiring of the repo's unit tests)
+	identity := true
+	var hasher obfuscation.Hasher = obfuscation.IdentityHasher{}
+	if len(c.Ops) > 0 {
+		if w := strings.Fields(c.Ops[0]); len(w) == 2 && w[0] == "wiring" && w[1] == "hasher=md5" {
+			identity = false
+			hasher = obfuscation.MD5Hasher{}
+		}
+	}
 	plugin, err := remedies.NewStrategyBasedThrottlingPlugin(context.Background(), clk, nil, rls,
-		obfuscation.Obfuscator{Hasher: obfuscation.MD5Hasher{}})
+		obfuscation.Obfuscator{Hasher: hasher})
 	if err != nil {
 		panic("harness: " + err.Error())
 	}
@@ -191,6 +201,13 @@ func exec(c proto.Case, o *proto.Out) []string {
 			continue
 		}
 		switch w[0] {
+		case "wiring":
+			h, _ := proto.KV(w, "hasher")
+			if i == 0 && (h == "identity" || h == "md5") {
+				outs[i] = "ok"
+			} else {
+				outs[i] = "bad-op"
+			}
 		case "remedy":
 			outs[i] = guarded(func() string {
 				id, r := parseRemedy(w[1:])
@@ -331,11 +348,18 @@ func exec(c proto.Case, o *proto.Out) []string {
 					if k.Grouping == limit.Ungrouped {
 						key += "|U"
 					} else {
-						j := strings.LastIndex(k.GroupID, ":")
-						hdr, hash := k.GroupID[:j], k.GroupID[j+1:]
-						val, ok := pre[hash]
-						if !ok {
-							val = "?" + hash
+						var hdr, val string
+						if identity {
+							// lower(header name) ":" TrimSpace(value): header names carry no colon
+							j := strings.Index(k.GroupID, ":")
+							hdr, val = k.GroupID[:j], k.GroupID[j+1:]
+						} else {
+							j := strings.LastIndex(k.GroupID, ":")
+							var ok bool
+							hdr = k.GroupID[:j]
+							if val, ok = pre[k.GroupID[j+1:]]; !ok {
+								val = "?" + k.GroupID[j+1:]
+							}
 						}
 						key += "|G|" + proto.Enc(hdr) + "|" + proto.Enc(val)
 					}
